@@ -87,6 +87,11 @@ partial def loop (h : IO.FS.Stream) (s0 s : State) (gok : Bool) (n : Nat) : IO U
       | _, _ => IO.println "bad"; loop h s0 s gok n
     | _ => IO.println "bad"; loop h s0 s gok n
 
-def main (_ : List String) : IO Unit := do
+/-- `c15driver repaired`: the model used when the input has no mode line is the repaired handshake (the check passes it
+when `C15.codeIsRepaired`, i.e. when translate/c15_exits.py finds the re-check in the source); `c15driver fix` / no
+argument: the model of the code before the repair. -/
+def main (args : List String) : IO Unit := do
   let h ← IO.getStdin
-  loop h init init true 0
+  if args.contains "repaired" then loopR h R.init 0
+  else if args.contains "fix" then loop h initFix initFix true 0
+  else loop h init init true 0
